@@ -245,9 +245,23 @@ void C18Exec::prepare(C18Outcome &out) {
             const Op &op = cs.progs[t][i];
             OpSlot &s = slots[t][i];
             std::string why;
+            AmbientReads rd0 = ambientReads();
             if (!attributable(op, s.ref, why)) {
                 s.dropped = true;
                 s.dropWhy = why;
+                AmbientReads rd1 = ambientReads();
+                if (why.find("not repeatable") != std::string::npos &&
+                    (rd1.clock + rd1.random > rd0.clock + rd0.random) && out.violations.size() < 8) {
+                    // not a harness matter: the call consumed the (simulated) clock or the
+                    // process-wide random stream and its result depends on it
+                    JP v = mkViolation(
+                        "I6-ambient-state", op, t, (int)i,
+                        "two sequential executions of the same call give different results and the call read "
+                        "the clock / the process-wide random stream: hidden state shared by all threads",
+                        "clock-or-random");
+                    v->set("case", caseWith({{0, 0}}));
+                    out.violations.push_back(v);
+                }
                 continue;
             }
             ExecOpts eo;
